@@ -11,6 +11,8 @@ import (
 	"sync"
 
 	sqlite3 "github.com/mattn/go-sqlite3"
+
+	"pegsim/simvfs"
 )
 
 // SQLEvent describes one driver-level call about to be executed.
@@ -43,6 +45,25 @@ type connector struct {
 // OpenDB opens the database behind the statement seam.
 func OpenDB(dsn string, hooks *SQLHooks, cachePages int) *sql.DB {
 	return sql.OpenDB(&connector{dsn: dsn, hooks: hooks, cachePages: cachePages, drv: &sqlite3.SQLiteDriver{}})
+}
+
+// OpenDBVFS is OpenDB with the files of the database routed through the
+// simulated-disk seam (package simvfs). The daemon's data source name is kept;
+// it is only put into URI form ("file:" prefix, which go-sqlite3 needs to hand
+// the vfs parameter to SQLite) and the vfs parameter is appended.
+func OpenDBVFS(dsn string, hooks *SQLHooks, cachePages int) *sql.DB {
+	if err := simvfs.Register(); err != nil {
+		panic(err)
+	}
+	if !strings.HasPrefix(dsn, "file:") {
+		dsn = "file:" + dsn
+	}
+	if strings.Contains(dsn, "?") {
+		dsn += "&vfs=simvfs"
+	} else {
+		dsn += "?vfs=simvfs"
+	}
+	return OpenDB(dsn, hooks, cachePages)
 }
 
 func (c *connector) Driver() driver.Driver { return c.drv }
@@ -87,7 +108,9 @@ func (c *conn) after(ev *SQLEvent, err error) {
 	}
 }
 
-func (c *conn) Prepare(q string) (driver.Stmt, error) { return c.PrepareContext(context.Background(), q) }
+func (c *conn) Prepare(q string) (driver.Stmt, error) {
+	return c.PrepareContext(context.Background(), q)
+}
 func (c *conn) PrepareContext(ctx context.Context, q string) (driver.Stmt, error) {
 	ev, err := c.before("prepare", q)
 	if err != nil {
